@@ -908,6 +908,14 @@ class Network:
                 return_when=asyncio.FIRST_COMPLETED
             )
 
+        except asyncio.CancelledError:
+            # The peer could have connected right before this attempt got
+            # cancelled (lost the race): close that connection, nobody will
+            # receive it
+            if expected_connection_future.done() and not expected_connection_future.cancelled():
+                await expected_connection_future.result().disconnect(CloseReason.REQUESTED)
+            raise
+
         finally:
             # Whatever happens here (also send failure or cancellation), we can
             # cancel all pending futures
